@@ -1,90 +1,146 @@
-//! C06 end-to-end: `e2e retry n=<nodes> sh=<shards> pol=<def|fall|down> idem=<0|1> kind=<exec|query|batch>
-//! cl=<q|serial|localserial> via=<session|caching>
-//! seed=<s> scripts=<o.o.o/o.o/...>`
+//! C06 end-to-end: `e2e retry n=<nodes> sh=<shards> pol=<def|fall|down> idem=<0|1>
+//! kind=<exec|query|batch|qvals|batchv|itere|iterq> cl=<q|serial|localserial|all|eachquorum> via=<session|caching>
+//! [cfg=<stmt|profile|handle|both>] [pages=<P>] [tmo=<ms> tmoat=<stmt|profile>] seed=<s> scripts=<o.o.o[~p.p]/...>`
+//! (`wire retry …` in c06.rs runs this same code and is additionally compared with the frame-level model
+//! `Model/RetryFrames.lean` + `Model/RetryPager.lean`).
 //!
-//! One logical request per script, sent one after another through a real Session; the k-th frame of a logical
-//! request that reaches ANY node is answered with the k-th outcome of its script (then `ok`):
+//! One logical request per script, sent one after another through a real Session; the k-th STATEMENT frame of a
+//! logical request that reaches ANY node is answered with the k-th outcome of its script (then `ok`):
 //! `ok`, `un` Unavailable, `bs` IsBootstrapping, `rt` ReadTimeout (enough replies, no data), `rtd` ReadTimeout (data
 //! present), `ov` Overloaded, `se` ServerError, `tr` TruncateError, `wt` WriteTimeout SIMPLE, `wtb` WriteTimeout
 //! BATCH_LOG, `inv` Invalid, `cl` the node closes the connection without answering, `unp` UNPREPARED (naming the id
-//! of the frame's own prepared statement; only scripted by the `wire` cases of c06.rs, which run this same code and
-//! are additionally compared with the frame-level model `Model/RetryFrames.lean`).
+//! of the frame's own prepared statement), `unpx` UNPREPARED naming an id that belongs to no statement of the
+//! request, `slow` the answer (ok) comes after 400 ms, and three answers the driver cannot parse: `gres` a RESULT of
+//! an unknown kind, `gerr` a truncated ERROR, `gsup` a garbled SUPPORTED (errors.rs:1031-1049).
+//! A script may be followed by `~<p.p.p>`: the answers to the PREPARE frames sent during that request
+//! (`PREP_ANSWERS`; default `p`).
 //!
-//! `unpx`: UNPREPARED naming an id that belongs to no statement of the request. A script may be followed by
-//! `~<p.p.p>`: the answers to the PREPARE frames sent during that request (`PREP_ANSWERS`; default `p`); kinds `qvals`
-//! (an unprepared statement WITH values: PREPARE + EXECUTE in every attempt, session.rs:1424-1438) and `batchv` (a batch
-//! with an unprepared statement with values: `prepare_batch` sends a PREPARE in every attempt) exist for the `wire` cases.
+//! kinds: `exec` a prepared INSERT; `query` an unprepared one without values; `qvals` an unprepared one WITH values
+//! (PREPARE + EXECUTE in every attempt, session.rs:1424-1438); `batch`; `batchv` a batch with an unprepared statement
+//! with values (`prepare_batch` sends a PREPARE in every attempt); `itere` / `iterq`: `execute_iter` / `query_iter`
+//! of a SELECT over `pages` pages (the transparent pager: one run of the execution core per page, with the pager's
+//! own copy of the execution parameters, pager.rs:146-186, 303-370) - an `ok` serves the page the frame asks for.
+//! `cfg`: WHERE the retry policy and the consistency are configured: on the statement (`stmt`), on the session's
+//! default execution profile (`profile`), on an execution-profile handle attached to the statement (`handle`; the
+//! session default then carries the fall-through policy and another consistency), or on the statement with decoy
+//! values on BOTH profiles (`both`) - execution.rs:122-160 and its copy pager.rs:146-186.
+//! `via=caching`: through a `CachingSession`.
 //!
-//! With `unp` the statement is sent again INSIDE one attempt (EXECUTE once more after the re-prepare, BATCH in a
-//! loop), so the oracle below is stated at frame level: an ATTEMPT starts at the first frame and after every frame
-//! whose predecessor was not answered `unp`.
-//!
-//! `via=caching`: the requests go through a `CachingSession` (`execute_unpaged(text, values)`; `batch` with an
-//! unprepared statement, i.e. through `prepare_batch`) - idempotence, retry policy and consistency are set on the
-//! Statement / Batch handed to it and must still govern the retries.
-//!
-//! ORACLE (C06's statement, counted at the nodes; no model, no policy code involved):
-//!  * a request not marked idempotent is sent again only directly after Unavailable / IsBootstrapping / ReadTimeout -
-//!    never after a closed connection, Overloaded / ServerError / TruncateError, WriteTimeout (or anything else);
-//!  * with the default policy a request at serial consistency (SERIAL or LOCAL_SERIAL) is sent once;
-//!  * with the fall-through policy every request is sent once (the driver sends exactly the attempts the policy decided);
-//!  * the number of frames of one request is at most (number of nodes) + 2;
-//!  * nothing is sent after an attempt was answered `ok`, and then the caller gets Ok.
+//! ORACLE (C06's statement, judged on the frames the nodes saw, interleaved with the decisions a recording wrapper
+//! around the REAL policy saw; no model involved):
+//!  * a statement not marked idempotent - and every page request of it - is put on the wire again only directly after
+//!    Unavailable / IsBootstrapping / ReadTimeout or UNPREPARED - never after a closed connection, Overloaded /
+//!    ServerError / TruncateError, WriteTimeout, an unparsable answer (or anything else);
+//!  * with the default policy a request at serial consistency (SERIAL or LOCAL_SERIAL) is attempted once, with the
+//!    fall-through policy every request (every page) is attempted once; at most (number of nodes) + 2 attempts;
+//!  * every frame carries the consistency that the policy decided at the previous attempt of that request (page), else
+//!    the configured one;
+//!  * nothing is sent after an attempt was answered `ok` / after the request timeout fired, and then the caller gets
+//!    Ok / RequestTimeout.
 use super::common::*;
 use crate::mockcluster::*;
-use crate::mocknode::{BatchStmt, Parsed};
+use crate::mocknode::{BatchStmt, Parsed, RESP_ERROR, RESP_RESULT, RESP_SUPPORTED};
 use crate::rng::Rng;
 use crate::{Ctx, Tier};
+use scylla::policies::retry::{RequestInfo, RetryDecision, RetryPolicy, RetrySession};
 use std::sync::{Arc, Mutex};
 use std::time::Duration;
 
-const OUTCOMES: &[&str] = &["ok", "un", "bs", "rt", "rtd", "ov", "se", "tr", "wt", "wtb", "inv", "cl", "unp", "unpx"];
+const OUTCOMES: &[&str] =
+    &["ok", "un", "bs", "rt", "rtd", "ov", "se", "tr", "wt", "wtb", "inv", "cl", "unp", "unpx", "slow", "gres", "gerr", "gsup"];
 /// answers to the PREPARE frames sent DURING a request (via=session only): ok, ok with ANOTHER id, Overloaded,
 /// IsBootstrapping, the node closes the connection
 const PREP_ANSWERS: &[&str] = &["p", "pc", "pov", "pbs", "pcl"];
 /// outcomes that prove the attempt was not applied
 const PROOF: &[&str] = &["un", "bs", "rt", "rtd"];
+const SLOW_MS: u64 = 400;
+
+/// The oracle's own table of consistency codes (CQL protocol).
+fn cl_code(cl: &str) -> Option<u16> {
+    Some(match cl {
+        "q" => 0x0006, // the driver's default: LOCAL_QUORUM
+        "serial" => 0x0008,
+        "localserial" => 0x0009,
+        "all" => 0x0005,
+        "eachquorum" => 0x0007,
+        _ => return None,
+    })
+}
+
+fn cl_short(code: u16) -> String {
+    match code {
+        0x0000 => "any".into(),
+        0x0001 => "one".into(),
+        0x0002 => "two".into(),
+        0x0003 => "three".into(),
+        0x0004 => "quorum".into(),
+        0x0005 => "all".into(),
+        0x0006 => "localquorum".into(),
+        0x0007 => "eachquorum".into(),
+        0x0008 => "serial".into(),
+        0x0009 => "localserial".into(),
+        0x000A => "localone".into(),
+        c => format!("0x{:04x}", c),
+    }
+}
 
 pub fn generate(rng: &mut Rng, tier: Tier, emit: &mut dyn FnMut(String)) {
-    let n_cases = if tier == Tier::Quick { 48 } else { 480 };
+    // (they all land in the runner's last chunk: keep the family small; the `wire` cases of c06.rs run the same code,
+    //  spread over all chunks and compared with the model as well)
+    let n_cases = if tier == Tier::Quick { 60 } else { 200 };
     for i in 0..n_cases {
         let n = 1 + rng.below(4);
         let sh = *rng.pick(&[0u64, 0, 2]);
         let pol = *rng.pick(&["def", "def", "def", "down", "fall"]);
         // the statement is about non-idempotent requests: most cases
         let idem = if i % 3 == 2 { 1 } else { 0 };
-        let kind = *rng.pick(&["exec", "exec", "query", "batch"]);
-        let cl = if pol == "def" && rng.chance(1, 8) { *rng.pick(&["serial", "localserial"]) } else { "q" };
+        // (the transparent pagers included: every page request is an execution of its own, with the pager's own
+        //  copy of the statement's idempotence flag, policy and consistency)
+        let kind = *rng.pick(&["exec", "exec", "query", "batch", "itere", "itere", "iterq"]);
+        let iter_kind = kind == "itere" || kind == "iterq";
+        let cl = if pol == "def" && rng.chance(1, 8) {
+            *rng.pick(&["serial", "localserial"])
+        } else if pol == "down" && rng.bool() {
+            "all"
+        } else {
+            "q"
+        };
         let n_req = 3 + rng.below(3);
         let mut scripts = Vec::new();
         for _ in 0..n_req {
-            let len = 1 + rng.below(n + 3);
+            let len = 1 + rng.below(n + 3) + if iter_kind { 3 } else { 0 };
             let mut s = Vec::new();
+            let mut oks = 0;
             for k in 0..len {
                 let o = if k + 1 == len && rng.bool() {
+                    "ok"
+                } else if iter_kind && rng.chance(2, 5) {
                     "ok"
                 } else if rng.chance(1, 2) {
                     // weight the proof-of-non-application outcomes, so that histories get long
                     *rng.pick(PROOF)
                 } else {
-                    *rng.pick(&OUTCOMES[1..])
+                    *rng.pick(&["un", "bs", "rt", "rtd", "ov", "se", "tr", "wt", "wtb", "inv", "cl", "gres", "gsup"])
                 };
                 s.push(o);
                 if o == "ok" {
-                    break;
+                    oks += 1;
+                    if oks >= if iter_kind { 3 } else { 1 } {
+                        break;
+                    }
                 }
             }
             scripts.push(s.join("."));
         }
         emit(format!(
-            "e2e retry n={} sh={} pol={} idem={} kind={} cl={} via={} seed={} scripts={}",
+            "e2e retry n={} sh={} pol={} idem={} kind={} cl={} via={} pages=3 seed={} scripts={}",
             n,
             sh,
             pol,
             idem,
             kind,
             cl,
-            if i % 4 == 1 { "caching" } else { "session" },
+            if i % 4 == 1 && !iter_kind { "caching" } else { "session" },
             rng.below(1 << 32),
             scripts.join("/")
         ));
@@ -105,6 +161,10 @@ fn outcome_acts(o: &str) -> Vec<Act> {
         "wtb" => vec![err_write_timeout(0x0004, 1, 2, "BATCH_LOG")],
         "inv" => vec![act_error(0x2200, "invalid", &[])],
         "cl" => vec![Act::Close],
+        // answers the driver cannot parse
+        "gres" => vec![Act::Respond(RESP_RESULT, vec![0x00, 0x00, 0x77, 0x77])],
+        "gerr" => vec![Act::Respond(RESP_ERROR, vec![0x00])],
+        "gsup" => vec![Act::Respond(RESP_SUPPORTED, vec![0xff])],
         _ => vec![act_void()],
     }
 }
@@ -140,10 +200,9 @@ fn std_prepared_with_id(text: &str, id: &[u8]) -> Vec<u8> {
 }
 
 /// Kind of the error the caller got (the model prints the same names).
-fn error_kind(e: &scylla::errors::ExecutionError) -> &'static str {
-    use scylla::errors::{DbError, ExecutionError, RequestAttemptError};
-    match e {
-        ExecutionError::LastAttemptError(a) => match a {
+fn attempt_error_kind(a: &scylla::errors::RequestAttemptError) -> &'static str {
+    use scylla::errors::{DbError, RequestAttemptError};
+    match a {
             RequestAttemptError::DbError(db, _) => match db {
                 DbError::Unavailable { .. } => "un",
                 DbError::IsBootstrapping => "bs",
@@ -159,13 +218,41 @@ fn error_kind(e: &scylla::errors::ExecutionError) -> &'static str {
             RequestAttemptError::BrokenConnectionError(_) => "cl",
             RequestAttemptError::RepreparedIdChanged { .. } => "idchg",
             RequestAttemptError::RepreparedIdMissingInBatch => "idmiss",
+            RequestAttemptError::CqlResultParseError(_) => "resparse",
+            RequestAttemptError::CqlErrorParseError(_) => "errparse",
+            RequestAttemptError::UnexpectedResponse(_) => "unexpected",
             RequestAttemptError::UnableToAllocStreamId => "alloc",
             _ => "attempt-other",
-        },
+    }
+}
+
+fn error_kind(e: &scylla::errors::ExecutionError) -> &'static str {
+    use scylla::errors::ExecutionError;
+    match e {
+        ExecutionError::LastAttemptError(a) => attempt_error_kind(a),
         ExecutionError::ConnectionPoolError(_) => "pool",
         ExecutionError::EmptyPlan => "emptyplan",
         ExecutionError::RequestTimeout(_) => "timeout",
         _ => "other",
+    }
+}
+
+fn request_error_kind(e: &scylla::errors::RequestError) -> &'static str {
+    use scylla::errors::RequestError;
+    match e {
+        RequestError::LastAttemptError(a) => attempt_error_kind(a),
+        RequestError::ConnectionPoolError(_) => "pool",
+        RequestError::EmptyPlan => "emptyplan",
+        RequestError::RequestTimeout(_) => "timeout",
+        _ => "other",
+    }
+}
+
+fn next_row_error_kind(e: &scylla::errors::NextRowError) -> &'static str {
+    use scylla::errors::{NextPageError, NextRowError};
+    match e {
+        NextRowError::NextPageError(NextPageError::RequestFailure(r)) => request_error_kind(r),
+        _ => "pager-other",
     }
 }
 
@@ -194,17 +281,93 @@ fn request_of(r: &Req, n_req: usize) -> Option<usize> {
     }
 }
 
+/// What the nodes and the retry policy saw of one logical request, in the order it happened.
+#[derive(Clone, Debug)]
+enum Ev {
+    /// a statement frame: scripted outcome, node, page it asks for, consistency it carries
+    Frame { o: String, node: usize, page: usize, cl: u16 },
+    /// a PREPARE frame sent during the request and its scripted answer
+    Prep { o: String },
+    /// a decision of the (real) retry session: name and the consistency a retry decision names
+    Dec { name: String, retry: bool, new_cl: Option<u16> },
+}
+
+type EvLog = Arc<Mutex<Vec<Vec<Ev>>>>;
+
+/// Records every decision of the real policy (which request it belongs to: the one being executed).
+struct RecPolicy {
+    inner: Arc<dyn RetryPolicy>,
+    log: EvLog,
+    current: Arc<Mutex<Option<usize>>>,
+}
+impl std::fmt::Debug for RecPolicy {
+    fn fmt(&self, f: &mut std::fmt::Formatter<'_>) -> std::fmt::Result {
+        write!(f, "RecPolicy({:?})", self.inner)
+    }
+}
+struct RecSession {
+    inner: Box<dyn RetrySession>,
+    log: EvLog,
+    current: Arc<Mutex<Option<usize>>>,
+}
+impl RetryPolicy for RecPolicy {
+    fn new_session(&self) -> Box<dyn RetrySession> {
+        Box::new(RecSession { inner: self.inner.new_session(), log: Arc::clone(&self.log), current: Arc::clone(&self.current) })
+    }
+}
+impl RetrySession for RecSession {
+    fn decide_should_retry(&mut self, ri: RequestInfo) -> RetryDecision {
+        let d = self.inner.decide_should_retry(ri);
+        let (name, retry, new_cl) = match &d {
+            RetryDecision::RetrySameTarget(c) => ("same", true, c.map(|c| c as u16)),
+            RetryDecision::RetryNextTarget(c) => ("next", true, c.map(|c| c as u16)),
+            RetryDecision::DontRetry => ("dont", false, None),
+            RetryDecision::IgnoreWriteError => ("ignore", false, None),
+            _ => ("unknown", false, None),
+        };
+        if let Some(q) = *self.current.lock().unwrap() {
+            self.log.lock().unwrap()[q].push(Ev::Dec { name: name.to_owned(), retry, new_cl });
+        }
+        d
+    }
+    fn reset(&mut self) {
+        self.inner.reset()
+    }
+}
+
+fn page_state(q: usize, j: usize) -> Vec<u8> {
+    vec![0x50, q as u8, j as u8]
+}
+
 pub fn run(words: &[&str], ctx: &mut Ctx) -> String {
     let Some(p) = Params::parse(words) else { return "bad-case".into() };
     let (Some(n), Some(sh), Some(idem), Some(seed)) = (p.num("n"), p.num_or("sh", 0), p.num_or("idem", 0), p.num_or("seed", 1)) else {
         return "bad-case".into();
     };
     let (pol, kind, cl) = (p.str("pol").unwrap_or("def"), p.str("kind").unwrap_or("exec"), p.str("cl").unwrap_or("q"));
-    if !(1..=8).contains(&n) || sh > 8 || !["def", "fall", "down"].contains(&pol) || !["exec", "query", "batch", "qvals", "batchv"].contains(&kind) || !["q", "serial", "localserial"].contains(&cl) {
+    let Some(stmt_cl) = cl_code(cl) else { return "bad-case".into() };
+    // `cl=q` configures no consistency anywhere: the chosen profile's applies - the driver's default LOCAL_QUORUM,
+    // except under cfg=both, where the statement's (decoy) profile handle says TWO
+    let stmt_cl = if cl == "q" && p.str("cfg") == Some("both") { 0x0002 } else { stmt_cl };
+    if !(1..=8).contains(&n)
+        || sh > 8
+        || !["def", "fall", "down"].contains(&pol)
+        || !["exec", "query", "batch", "qvals", "batchv", "itere", "iterq"].contains(&kind)
+    {
         return "bad-case".into();
     }
     let via = p.str("via").unwrap_or("session");
-    if !["session", "caching"].contains(&via) {
+    let cfg = p.str("cfg").unwrap_or("stmt");
+    let (Some(pages), Some(tmo)) = (p.num_or("pages", 3), p.num_or("tmo", 0)) else { return "bad-case".into() };
+    let tmoat = p.str("tmoat").unwrap_or("stmt");
+    let iter_kind = kind == "itere" || kind == "iterq";
+    if !["session", "caching"].contains(&via)
+        || !["stmt", "profile", "handle", "both"].contains(&cfg)
+        || !["stmt", "profile"].contains(&tmoat)
+        || !(1..=6).contains(&pages)
+        || tmo > 100_000
+        || (via != "session" && (cfg != "stmt" || iter_kind || tmo != 0))
+    {
         return "bad-case".into();
     }
     let Some(scripts_s) = p.str("scripts") else { return "bad-case".into() };
@@ -225,93 +388,174 @@ pub fn run(words: &[&str], ctx: &mut Ctx) -> String {
         return "bad-case".into();
     }
     let n = n as usize;
+    let pages = pages as usize;
     let shape = Shape { nodes: n, dcs: 1, racks: 1, shards: sh as u16, msb: 12, vnodes: 2, strat: Strat::Simple(n.min(2)), seed };
     let n_req = scripts.len();
-    // served[r] = outcomes actually served for request r, with the node
-    let served: Arc<Mutex<Vec<Vec<(String, usize)>>>> = Arc::new(Mutex::new(vec![Vec::new(); n_req]));
-    let served_h = Arc::clone(&served);
-    let scripts_h = scripts.clone();
-    // the request being executed (requests run one after another); PREPARE frames seen meanwhile belong to it
+    let log: EvLog = Arc::new(Mutex::new(vec![Vec::new(); n_req]));
+    // the request being executed (requests run one after another); PREPARE frames, decisions and the frames of the
+    // pagers (which all carry the same text) seen meanwhile belong to it
     let current: Arc<Mutex<Option<usize>>> = Arc::new(Mutex::new(None));
-    let current_h = Arc::clone(&current);
-    let prep_served: Arc<Mutex<Vec<Vec<String>>>> = Arc::new(Mutex::new(vec![Vec::new(); n_req]));
-    let prep_served_h = Arc::clone(&prep_served);
-    let prep_scripts_h = prep_scripts.clone();
+    let (log_h, current_h) = (Arc::clone(&log), Arc::clone(&current));
+    let (scripts_h, prep_scripts_h) = (scripts.clone(), prep_scripts.clone());
     let scripted_prepares = via == "session";
     let handler: ClusterHandler = Box::new(move |r: &Req| {
+        let cur = *current_h.lock().unwrap();
         if let Parsed::Prepare { text } = &r.parsed {
-            let cur = *current_h.lock().unwrap();
             let Some(q) = cur.filter(|_| scripted_prepares) else {
-                return vec![Act::Respond(crate::mocknode::RESP_RESULT, std_prepared(text))];
+                return vec![Act::Respond(RESP_RESULT, std_prepared(text))];
             };
-            let mut ps = prep_served_h.lock().unwrap();
-            let k = ps[q].len();
+            let mut lg = log_h.lock().unwrap();
+            let k = lg[q].iter().filter(|e| matches!(e, Ev::Prep { .. })).count();
             let o = prep_scripts_h[q].get(k).cloned().unwrap_or_else(|| "p".to_owned());
-            ps[q].push(o.clone());
+            lg[q].push(Ev::Prep { o: o.clone() });
             return match o.as_str() {
                 "pc" => {
                     let mut id = stmt_id(text);
                     if let Some(b) = id.last_mut() {
                         *b ^= 0xFF;
                     }
-                    vec![Act::Respond(crate::mocknode::RESP_RESULT, std_prepared_with_id(text, &id))]
+                    vec![Act::Respond(RESP_RESULT, std_prepared_with_id(text, &id))]
                 }
                 "pov" => vec![act_error(0x1001, "overloaded", &[])],
                 "pbs" => vec![act_error(0x1002, "bootstrapping", &[])],
                 "pcl" => vec![Act::Close],
-                _ => vec![Act::Respond(crate::mocknode::RESP_RESULT, std_prepared(text))],
+                _ => vec![Act::Respond(RESP_RESULT, std_prepared(text))],
             };
         }
-        let Some(q) = request_of(r, n_req) else { return vec![act_void()] };
-        let mut sv = served_h.lock().unwrap();
-        let k = sv[q].len();
+        // which request, which page, which consistency
+        let (params, batch_cl) = match &r.parsed {
+            Parsed::Query { params, .. } => (Some(params), None),
+            Parsed::Execute { params, .. } => (Some(params), None),
+            Parsed::Batch { consistency, .. } => (None, Some(*consistency)),
+            _ => return vec![act_void()],
+        };
+        let q = if iter_kind { cur } else { request_of(r, n_req).or(cur) };
+        let Some(q) = q else { return vec![act_void()] };
+        let frame_cl = params.map(|p| p.consistency).or(batch_cl).unwrap_or(0xffff);
+        let page = match params.and_then(|p| p.paging_state.as_ref()) {
+            None => 0,
+            Some(ps) if ps.len() == 3 && ps[0] == 0x50 && ps[1] == q as u8 => ps[2] as usize + 1,
+            Some(_) => usize::MAX,
+        };
+        let mut lg = log_h.lock().unwrap();
+        let k = lg[q].iter().filter(|e| matches!(e, Ev::Frame { .. })).count();
         let o = scripts_h[q].get(k).cloned().unwrap_or_else(|| "ok".to_owned());
-        sv[q].push((o.clone(), r.node));
-        if o == "unp" {
-            unprepared_for(r)
-        } else if o == "unpx" {
-            vec![Act::Respond(crate::mocknode::RESP_ERROR, crate::mocknode::body_unprepared(&[0xBA; 16]))]
-        } else {
-            outcome_acts(&o)
+        lg[q].push(Ev::Frame { o: o.clone(), node: r.node, page, cl: frame_cl });
+        let ok_acts = || -> Vec<Act> {
+            if iter_kind && page < pages {
+                let rows: Vec<Vec<Cell>> =
+                    (0..2).map(|i| { let v = (page * 2 + i) as i32; vec![Some(v.to_be_bytes().to_vec()), c_int(v)] }).collect();
+                let st = if page + 1 < pages { Some(page_state(q, page)) } else { None };
+                let with_cols = !params.map(|p| p.skip_metadata).unwrap_or(false);
+                vec![Act::Respond(RESP_RESULT, rows_body(&row_specs(), with_cols, st.as_deref(), &rows))]
+            } else {
+                vec![act_void()]
+            }
+        };
+        match o.as_str() {
+            "ok" => ok_acts(),
+            "slow" => {
+                let mut v = vec![Act::Delay(Duration::from_millis(SLOW_MS))];
+                v.extend(ok_acts());
+                v
+            }
+            "unp" => unprepared_for(r),
+            "unpx" => vec![Act::Respond(RESP_ERROR, crate::mocknode::body_unprepared(&[0xBA; 16]))],
+            _ => outcome_acts(&o),
         }
     });
     let rt = runtime(1);
     rt.block_on(async {
+        use scylla::client::execution_profile::ExecutionProfile;
         use scylla::policies::retry::*;
         use scylla::statement::Consistency;
         use scylla::statement::batch::{Batch, BatchType};
         use scylla::statement::unprepared::Statement;
-        let cluster = MockCluster::start(shape.topology(), handler).await;
-        let session = match connect(&cluster, |b| b).await {
-            Ok(s) => s,
-            Err(skip) => return skip,
-        };
-        let policy: Arc<dyn RetryPolicy> = match pol {
+        let inner: Arc<dyn RetryPolicy> = match pol {
             "fall" => Arc::new(FallthroughRetryPolicy::new()),
             "down" => Arc::new(DowngradingConsistencyRetryPolicy::new()),
             _ => Arc::new(DefaultRetryPolicy::new()),
         };
-        let mut ps = match session.prepare(INSERT).await {
-            Ok(ps) => ps,
-            Err(_) => return "e2e-skip prepare-failed".to_owned(),
-        };
+        let policy: Arc<dyn RetryPolicy> = Arc::new(RecPolicy { inner, log: Arc::clone(&log), current: Arc::clone(&current) });
         let consistency = match cl {
             "serial" => Some(Consistency::Serial),
             "localserial" => Some(Consistency::LocalSerial),
+            "all" => Some(Consistency::All),
+            "eachquorum" => Some(Consistency::EachQuorum),
             _ => None,
         };
+        let timeout = if tmo > 0 { Some(Duration::from_millis(tmo)) } else { None };
+        // a profile carrying the policy / consistency under test, and decoys that must NOT be selected
+        let real_profile = |with_timeout: bool| {
+            let mut b = ExecutionProfile::builder().retry_policy(Arc::clone(&policy));
+            if let Some(c) = consistency {
+                b = b.consistency(c);
+            }
+            if with_timeout && timeout.is_some() {
+                b = b.request_timeout(timeout);
+            }
+            b.build().into_handle()
+        };
+        let decoy_profile = |c: Consistency| {
+            ExecutionProfile::builder().retry_policy(Arc::new(FallthroughRetryPolicy::new())).consistency(c).build().into_handle()
+        };
+        let tmo_profile = tmoat == "profile";
+        let session_default = match cfg {
+            "profile" => Some(real_profile(tmo_profile)),
+            "handle" | "both" => Some(decoy_profile(Consistency::Three)),
+            // cfg=stmt: only a profile-level timeout, if any
+            _ if tmo_profile && timeout.is_some() => Some(ExecutionProfile::builder().request_timeout(timeout).build().into_handle()),
+            _ => None,
+        };
+        let stmt_handle = match cfg {
+            "handle" => Some(real_profile(tmo_profile)),
+            "both" => Some(decoy_profile(Consistency::Two)),
+            _ => None,
+        };
+        let on_stmt = cfg == "stmt" || cfg == "both";
+        let cluster = MockCluster::start(shape.topology(), handler).await;
+        let sd = session_default.clone();
+        let session = match connect(&cluster, move |b| match &sd {
+            Some(h) => b.default_execution_profile_handle(h.clone()),
+            None => b,
+        })
+        .await
+        {
+            Ok(s) => s,
+            Err(skip) => return skip,
+        };
+        let stmt_timeout = if tmoat == "stmt" { timeout } else { None };
+        let mut ps = match session.prepare(if iter_kind { SELECT_ALL } else { INSERT }).await {
+            Ok(ps) => ps,
+            Err(_) => return "e2e-skip prepare-failed".to_owned(),
+        };
         ps.set_is_idempotent(idem != 0);
-        ps.set_retry_policy(Some(Arc::clone(&policy)));
-        if let Some(c) = consistency {
-            ps.set_consistency(c);
+        if on_stmt {
+            ps.set_retry_policy(Some(Arc::clone(&policy)));
+            if let Some(c) = consistency {
+                ps.set_consistency(c);
+            }
+        }
+        if stmt_timeout.is_some() {
+            ps.set_request_timeout(stmt_timeout);
+        }
+        ps.set_execution_profile_handle(stmt_handle.clone());
+        if iter_kind {
+            ps.set_page_size(2);
         }
         let configured = |text: String| {
             let mut st = Statement::new(text);
             st.set_is_idempotent(idem != 0);
-            st.set_retry_policy(Some(Arc::clone(&policy)));
-            if let Some(c) = consistency {
-                st.set_consistency(c);
+            if on_stmt {
+                st.set_retry_policy(Some(Arc::clone(&policy)));
+                if let Some(c) = consistency {
+                    st.set_consistency(c);
+                }
             }
+            if stmt_timeout.is_some() {
+                st.set_request_timeout(stmt_timeout);
+            }
+            st.set_execution_profile_handle(stmt_handle.clone());
             st
         };
         // (the CachingSession owns the Session)
@@ -325,117 +569,231 @@ pub fn run(words: &[&str], ctx: &mut Ctx) -> String {
             (_, Some(cs)) => cs.get_session(),
             _ => unreachable!(),
         };
-        let mut results: Vec<bool> = Vec::new();
         let mut kinds: Vec<String> = Vec::new();
         for q in 0..n_req {
             *current.lock().unwrap() = Some(q);
-            let res: Result<(), scylla::errors::ExecutionError> = match (kind, &caching) {
-                ("exec", None) => session.execute_unpaged(&ps, (key_of(q), 0i32)).await.map(|_| ()),
-                ("exec", Some(cs)) => cs.execute_unpaged(configured(INSERT.to_owned()), (key_of(q), 0i32)).await.map(|_| ()),
-                ("query", None) => session.query_unpaged(configured(text_of(q)), ()).await.map(|_| ()),
+            let res: Result<(), String> = match (kind, &caching) {
+                ("exec", None) => session.execute_unpaged(&ps, (key_of(q), 0i32)).await.map(|_| ()).map_err(|e| error_kind(&e).to_owned()),
+                ("exec", Some(cs)) => {
+                    cs.execute_unpaged(configured(INSERT.to_owned()), (key_of(q), 0i32)).await.map(|_| ()).map_err(|e| error_kind(&e).to_owned())
+                }
+                ("query", None) => session.query_unpaged(configured(text_of(q)), ()).await.map(|_| ()).map_err(|e| error_kind(&e).to_owned()),
                 // an unprepared statement WITH values: prepared and executed inside every attempt
-                ("qvals", _) => session.query_unpaged(configured(INSERT.to_owned()), (key_of(q), 0i32)).await.map(|_| ()),
+                ("qvals", _) => {
+                    session.query_unpaged(configured(INSERT.to_owned()), (key_of(q), 0i32)).await.map(|_| ()).map_err(|e| error_kind(&e).to_owned())
+                }
                 // prepared by the CachingSession, executed without values
-                ("query", Some(cs)) => cs.execute_unpaged(configured(text_of(q)), ()).await.map(|_| ()),
+                ("query", Some(cs)) => cs.execute_unpaged(configured(text_of(q)), ()).await.map(|_| ()).map_err(|e| error_kind(&e).to_owned()),
+                ("itere", _) | ("iterq", _) => {
+                    // the transparent pager: consume the row stream to its end or first error
+                    let pager = if kind == "itere" {
+                        session.execute_iter(ps.clone(), ()).await
+                    } else {
+                        let mut st = configured(SELECT_ALL.to_owned());
+                        st.set_page_size(2);
+                        session.query_iter(st, ()).await
+                    };
+                    match pager {
+                        Err(e) => Err(match &e {
+                            scylla::errors::PagerExecutionError::NextPageError(scylla::errors::NextPageError::RequestFailure(r)) => {
+                                request_error_kind(r).to_owned()
+                            }
+                            _ => "pager-other".to_owned(),
+                        }),
+                        Ok(pager) => match pager.rows_stream::<(Vec<u8>, i32)>() {
+                            Err(_) => Err("typecheck".to_owned()),
+                            Ok(mut stream) => {
+                                use futures::StreamExt;
+                                let mut out = Ok(());
+                                while let Some(item) = stream.next().await {
+                                    if let Err(e) = item {
+                                        out = Err(next_row_error_kind(&e).to_owned());
+                                        break;
+                                    }
+                                }
+                                out
+                            }
+                        },
+                    }
+                }
                 ("batchv", _) => {
                     let mut b = Batch::new(BatchType::Logged);
                     b.append_statement(ps.clone());
                     // unprepared WITH a value: prepare_batch prepares it on the connection in every attempt
                     b.append_statement(Statement::new("INSERT INTO ks.t (pk, v) VALUES (?, 1)"));
                     b.set_is_idempotent(idem != 0);
-                    b.set_retry_policy(Some(Arc::clone(&policy)));
-                    if let Some(c) = consistency {
-                        b.set_consistency(c);
+                    if on_stmt {
+                        b.set_retry_policy(Some(Arc::clone(&policy)));
+                        if let Some(c) = consistency {
+                            b.set_consistency(c);
+                        }
                     }
-                    session.batch(&b, ((key_of(q), 0i32), (vec![0u8],))).await.map(|_| ())
+                    if stmt_timeout.is_some() {
+                        b.set_request_timeout(stmt_timeout);
+                    }
+                    b.set_execution_profile_handle(stmt_handle.clone());
+                    session.batch(&b, ((key_of(q), 0i32), (vec![0u8],))).await.map(|_| ()).map_err(|e| error_kind(&e).to_owned())
                 }
                 _ => {
                     let mut b = Batch::new(BatchType::Logged);
                     b.append_statement(ps.clone());
                     b.append_statement(Statement::new("INSERT INTO ks.t (pk, v) VALUES (0x00, 1)"));
                     b.set_is_idempotent(idem != 0);
-                    b.set_retry_policy(Some(Arc::clone(&policy)));
-                    if let Some(c) = consistency {
-                        b.set_consistency(c);
+                    if on_stmt {
+                        b.set_retry_policy(Some(Arc::clone(&policy)));
+                        if let Some(c) = consistency {
+                            b.set_consistency(c);
+                        }
                     }
+                    if stmt_timeout.is_some() {
+                        b.set_request_timeout(stmt_timeout);
+                    }
+                    b.set_execution_profile_handle(stmt_handle.clone());
                     match &caching {
-                        None => session.batch(&b, ((key_of(q), 0i32), ())).await.map(|_| ()),
+                        None => session.batch(&b, ((key_of(q), 0i32), ())).await.map(|_| ()).map_err(|e| error_kind(&e).to_owned()),
                         // the unprepared statement sends the batch through prepare_batch
-                        Some(cs) => cs.batch(&b, ((key_of(q), 0i32), ())).await.map(|_| ()),
+                        Some(cs) => cs.batch(&b, ((key_of(q), 0i32), ())).await.map(|_| ()).map_err(|e| error_kind(&e).to_owned()),
                     }
                 }
             };
+            // (a node that answers `slow` after the request timeout still writes its late answer: let it)
+            if tmo > 0 {
+                tokio::time::sleep(Duration::from_millis(SLOW_MS + 50)).await;
+            }
             *current.lock().unwrap() = None;
-            results.push(res.is_ok());
             kinds.push(match &res {
                 Ok(()) => "ok".to_owned(),
-                Err(e) => format!("err:{}", error_kind(e)),
+                Err(k) => format!("err:{}", k),
             });
             // a closed connection is re-opened by the pool; start the next request from full pools again
             cluster.wait_pools_full(&session, Duration::from_secs(3)).await;
         }
         // ------------------------------------------------------------------ oracle
-        let served = served.lock().unwrap().clone();
-        let prep_served = prep_served.lock().unwrap().clone();
+        let log = log.lock().unwrap().clone();
         let mut summary = Vec::new();
+        let unp = |o: &str| o == "unp" || o == "unpx";
         for q in 0..n_req {
-            let sv: Vec<&str> = served[q].iter().map(|x| x.0.as_str()).collect();
-            let what = format!("request {} ({}, {}, policy {}, cl {}, via {})", q, if idem != 0 { "idempotent" } else { "NOT idempotent" }, kind, pol, cl, via);
-            // frames that START an attempt: the first one and every one whose predecessor was not answered UNPREPARED
-            let attempts = if sv.is_empty() { 0 } else { 1 + (1..sv.len()).filter(|k| sv[k - 1] != "unp" && sv[k - 1] != "unpx").count() };
+            let frames: Vec<(&str, usize, usize, u16)> = log[q]
+                .iter()
+                .filter_map(|e| match e {
+                    Ev::Frame { o, node, page, cl } => Some((o.as_str(), *node, *page, *cl)),
+                    _ => None,
+                })
+                .collect();
+            let sv: Vec<&str> = frames.iter().map(|f| f.0).collect();
+            let preps: Vec<&str> = log[q].iter().filter_map(|e| match e { Ev::Prep { o } => Some(o.as_str()), _ => None }).collect();
+            let what = format!(
+                "request {} ({}, {}, policy {} configured on {}, cl {}, via {})",
+                q, if idem != 0 { "idempotent" } else { "NOT idempotent" }, kind, pol, cfg, cl, via
+            );
+            // (a) frame level: a frame asking for the same page as its predecessor is a RE-SEND of that page request
             if idem == 0 {
-                for k in 1..sv.len() {
-                    // frame level: UNPREPARED also proves that the statement was not applied
-                    if !PROOF.contains(&sv[k - 1]) && sv[k - 1] != "unp" && sv[k - 1] != "unpx" {
+                for k in 1..frames.len() {
+                    let prev = frames[k - 1].0;
+                    if frames[k].2 == frames[k - 1].2 && !PROOF.contains(&prev) && !unp(prev) {
                         ctx.fail(format!(
-                            "e2e retry: {} was sent again (frame {} at node {}) after `{}`, which does not prove that the previous attempt was not applied; served outcomes {:?}",
-                            what,
-                            k + 1,
-                            served[q][k].1,
-                            sv[k - 1],
-                            sv
+                            "e2e retry: {} was sent again (frame {} for page {} at node {}) after `{}`, which does not prove that the previous attempt was not applied; served outcomes {:?}",
+                            what, k + 1, frames[k].2, frames[k].1, prev, sv
                         ));
                         break;
                     }
                 }
             }
-            // a failed (re-)prepare ends an attempt without a statement frame of its own: the attempt count below is
-            // only exact when every PREPARE of the request was answered normally
-            let plain_prepares = prep_served[q].iter().all(|p| p == "p") && kind != "qvals" && kind != "batchv";
-            let attempts = if plain_prepares { attempts } else { attempts.min(1) };
-            let unp = |o: &str| o == "unp" || o == "unpx";
-            if pol == "fall" && attempts > 1 {
-                ctx.fail(format!("e2e retry: {} was attempted {} times although the fall-through policy never retries; served {:?}", what, attempts, sv));
-            }
-            if cl != "q" && pol == "def" && attempts > 1 {
-                ctx.fail(format!("e2e retry: {} at serial consistency was attempted {} times by the default policy; served {:?}", what, attempts, sv));
-            }
-            if attempts > n + 2 {
-                ctx.fail(format!("e2e retry: {} was attempted {} times on a cluster of {} nodes (bound: nodes + 2); served {:?}", what, attempts, n, sv));
-            }
-            // QUERY is never re-sent inside an attempt, EXECUTE at most once (connection.rs:1102-1133)
-            let plain_query = kind == "query" && via == "session";
-            for k in 1..sv.len() {
-                if plain_query && unp(sv[k - 1]) {
-                    ctx.fail(format!("e2e retry: {} (a QUERY without values) was sent again after UNPREPARED; served {:?}", what, sv));
-                }
-                if plain_prepares && kind != "batch" && !plain_query && k >= 2 && unp(sv[k - 1]) && unp(sv[k - 2]) {
-                    ctx.fail(format!("e2e retry: {} was sent a third time inside one attempt (two UNPREPARED answers in a row); served {:?}", what, sv));
+            // (b) pages are asked for in order, the next one only after an `ok`
+            for k in 0..frames.len() {
+                let expect_page = frames[..k].iter().filter(|f| f.0 == "ok" || f.0 == "slow").count();
+                if frames[k].2 != expect_page {
+                    ctx.fail(format!("e2e retry: {}: frame {} asks for page {} but {} page(s) were served; served {:?}", what, k + 1, frames[k].2 as i64, expect_page, sv));
+                    break;
                 }
             }
-            if let Some(i) = sv.iter().position(|o| *o == "ok") {
-                if i + 1 != sv.len() {
-                    ctx.fail(format!("e2e retry: {} was sent again after an attempt had succeeded; served {:?}", what, sv));
-                } else if !results[q] {
-                    ctx.fail(format!("e2e retry: {} got an error although its last attempt was answered with success; served {:?}", what, sv));
+            // (c) every frame carries the consistency decided at the previous attempt of the same page request, else
+            //     the configured one (the events are in the order they happened)
+            let mut cur_cl = stmt_cl;
+            let mut cur_page = 0usize;
+            for e in &log[q] {
+                match e {
+                    Ev::Dec { retry: true, new_cl: Some(c), .. } => cur_cl = *c,
+                    Ev::Frame { page, cl: fcl, o, .. } => {
+                        if *page != cur_page {
+                            cur_page = *page;
+                            cur_cl = stmt_cl; // every page request starts from the statement's consistency again
+                        }
+                        if *fcl != cur_cl {
+                            ctx.fail(format!(
+                                "e2e retry: {}: a frame (answered `{}`) carried consistency {} but the policy's last decision / the configuration says {}; events {:?}",
+                                what, o, cl_short(*fcl), cl_short(cur_cl), log[q]
+                            ));
+                            break;
+                        }
+                    }
+                    _ => {}
                 }
             }
-            // statement frames, PREPARE frames sent during the request (via=session), result with the error kind
-            let preps = if scripted_prepares { prep_served[q].len().to_string() } else { "-".to_owned() };
+            // (d) attempts: exact when every PREPARE of the request was answered normally and nothing was paged
+            let plain_prepares = preps.iter().all(|p| *p == "p") && kind != "qvals" && kind != "batchv";
+            for pg in 0..=frames.iter().map(|f| f.2).filter(|p| *p != usize::MAX).max().unwrap_or(0) {
+                let fv: Vec<&str> = frames.iter().filter(|f| f.2 == pg).map(|f| f.0).collect();
+                if fv.is_empty() || !plain_prepares {
+                    continue;
+                }
+                let attempts = 1 + (1..fv.len()).filter(|k| !unp(fv[k - 1])).count();
+                if pol == "fall" && attempts > 1 {
+                    ctx.fail(format!("e2e retry: {} (page {}) was attempted {} times although the fall-through policy never retries; served {:?}", what, pg, attempts, sv));
+                }
+                if (cl == "serial" || cl == "localserial") && pol == "def" && attempts > 1 {
+                    ctx.fail(format!("e2e retry: {} (page {}) at serial consistency was attempted {} times by the default policy; served {:?}", what, pg, attempts, sv));
+                }
+                if attempts > n + 2 {
+                    ctx.fail(format!("e2e retry: {} (page {}) was attempted {} times on a cluster of {} nodes (bound: nodes + 2); served {:?}", what, pg, attempts, n, sv));
+                }
+                // QUERY without values is never re-sent inside an attempt, EXECUTE at most once (connection.rs:1102-1133)
+                let plain_query = (kind == "query" && via == "session") || kind == "iterq";
+                for k in 1..fv.len() {
+                    if plain_query && unp(fv[k - 1]) {
+                        ctx.fail(format!("e2e retry: {} (a QUERY without values) was sent again after UNPREPARED; served {:?}", what, sv));
+                    }
+                    if kind != "batch" && !plain_query && k >= 2 && unp(fv[k - 1]) && unp(fv[k - 2]) {
+                        ctx.fail(format!("e2e retry: {} was sent a third time inside one attempt (two UNPREPARED answers in a row); served {:?}", what, sv));
+                    }
+                }
+            }
+            // (e) the end: nothing after the last page was served / after the timeout fired
+            let served_ok = sv.iter().filter(|o| **o == "ok" || **o == "slow").count();
+            let want_ok = if iter_kind { pages } else { 1 };
+            // (under cfg=both the profile-level timeout sits on neither decoy profile: none is in force)
+            let tmo_in_force = tmo > 0 && (tmoat == "stmt" || cfg != "both");
+            let timed_out = tmo_in_force && tmo < SLOW_MS && sv.contains(&"slow");
+            if timed_out {
+                if sv.last() != Some(&"slow") {
+                    ctx.fail(format!("e2e retry: {} was sent again after the request timeout of {} ms had fired; served {:?}", what, tmo, sv));
+                }
+                if kinds[q] != "err:timeout" {
+                    ctx.fail(format!("e2e retry: {}: the node answered after {} ms, the request timeout is {} ms, but the caller got `{}`", what, SLOW_MS, tmo, kinds[q]));
+                }
+            } else if served_ok == want_ok {
+                if !matches!(sv.last(), Some(&"ok") | Some(&"slow")) {
+                    ctx.fail(format!("e2e retry: {} was sent again after it had succeeded; served {:?}", what, sv));
+                } else if kinds[q] != "ok" {
+                    ctx.fail(format!("e2e retry: {} got `{}` although its last attempt was answered with success; served {:?}", what, kinds[q], sv));
+                }
+            } else if served_ok > want_ok {
+                ctx.fail(format!("e2e retry: {} was answered with success {} times; served {:?}", what, served_ok, sv));
+            }
+            // statement frames (per page for the pagers), PREPARE frames sent during the request (via=session), result
+            // with the error kind, consistency of every statement frame
+            let counts = if iter_kind {
+                let maxp = frames.iter().map(|f| f.2).filter(|p| *p != usize::MAX).max().unwrap_or(0);
+                (0..=maxp).map(|pg| frames.iter().filter(|f| f.2 == pg).count().to_string()).collect::<Vec<_>>().join("+")
+            } else {
+                frames.len().to_string()
+            };
+            let np = if scripted_prepares { preps.len().to_string() } else { "-".to_owned() };
+            let cls = if frames.is_empty() { "-".to_owned() } else { frames.iter().map(|f| cl_short(f.3)).collect::<Vec<_>>().join(",") };
             if std::env::var("C06_DEBUG").is_ok() {
-                eprintln!("request {} served {:?}", q, served[q]);
+                eprintln!("request {} events {:?}", q, log[q]);
             }
-            summary.push(format!("{}/{}:{}", sv.len(), preps, kinds[q]));
+            summary.push(format!("{}/{}:{}@{}", counts, np, kinds[q], cls));
         }
         format!("retry {}", summary.join(" "))
     })
